@@ -38,7 +38,10 @@ func GenTxOps(t *rapid.T, o TxGenOpts) []Op {
 			op.Lvl = rapid.IntRange(0, 4).Draw(t, "lvl")
 		case "gc", "reopen":
 		default:
-			op.H = rapid.IntRange(0, 6).Draw(t, "actor")
+			// a third of the operations are autocommit, the rest go to one of the open transactions
+			if rapid.IntRange(0, 2).Draw(t, "auto") > 0 {
+				op.H = rapid.IntRange(1, 6).Draw(t, "actor")
+			}
 			if hotKey && rapid.IntRange(0, 3).Draw(t, "hotSel") > 0 {
 				op.Key = 0
 			} else {
@@ -60,5 +63,58 @@ func GenTxOps(t *rapid.T, o TxGenOpts) []Op {
 		}
 		ops = append(ops, op)
 	}
+	return ops
+}
+
+// GenConflictScenario draws a short scripted fragment in which a snapshot transaction writes keys
+// while others commit to some of them, then commits: the if-and-only-if of the conflict rule.
+func GenConflictScenario(t *rapid.T) []Op {
+	var ops []Op
+	lvl := rapid.SampledFrom([]int{2, 3, 2, 3, 1, 0}).Draw(t, "scLvl")
+	ops = append(ops, Op{K: "begin", Lvl: lvl})
+	nkeys := rapid.IntRange(1, 3).Draw(t, "scKeys")
+	write := func(key int) Op {
+		if rapid.IntRange(0, 4).Draw(t, "scDel") == 0 {
+			return Op{K: "del", Key: key}
+		}
+		return Op{K: "set", Key: key, Len: rapid.IntRange(0, 20).Draw(t, "scLen")}
+	}
+	// the snapshot transaction's own writes (before and/or after the interfering commits)
+	early := rapid.Bool().Draw(t, "scEarly")
+	if early {
+		for k := 0; k < nkeys; k++ {
+			o := write(k)
+			o.Last = true
+			ops = append(ops, o)
+		}
+	}
+	// interference: on which of the keys, by whom
+	for k := 0; k < nkeys+1; k++ {
+		switch rapid.IntRange(0, 4).Draw(t, "scInterf") {
+		case 0: // autocommit write
+			ops = append(ops, write(k))
+		case 1: // another transaction commits a write
+			ops = append(ops, Op{K: "begin", Lvl: rapid.IntRange(0, 3).Draw(t, "scLvl2")})
+			o := write(k)
+			o.Last = true
+			ops = append(ops, o, Op{K: "commit", Last: true})
+		case 2: // another transaction writes and rolls back: no conflict
+			ops = append(ops, Op{K: "begin", Lvl: rapid.IntRange(0, 3).Draw(t, "scLvl3")})
+			o := write(k)
+			o.Last = true
+			ops = append(ops, o, Op{K: "rollback", Last: true})
+		}
+	}
+	if !early || rapid.Bool().Draw(t, "scLate") {
+		for k := 0; k < nkeys; k++ {
+			o := write(k)
+			o.Last = true
+			ops = append(ops, o)
+		}
+	}
+	if rapid.IntRange(0, 5).Draw(t, "scGC") == 0 {
+		ops = append(ops, Op{K: "gc"})
+	}
+	ops = append(ops, Op{K: "commit", Last: true})
 	return ops
 }
